@@ -189,3 +189,53 @@ pub mod minivec {
 #[cfg(kani)]
 use minivec::Vec;
 '''
+
+# Tier D: a minimal model DOM for Engine K.  Nodes live in fixed static tables; an Element is an index.  Only what the sliced
+# functions use is offered (children / replace_children / name / as_element / create_mathml_element / document).  Tree *shape* enters
+# through explicit small bounds (MAXC children per node, MAXN nodes); kinds / emptiness are symbolic.  Natively the same model is used
+# for the replay (the real sxd_document is exercised by the API replay through mcprobe).
+MINIDOM = r'''
+#[allow(dead_code, static_mut_refs)]
+pub mod dom {
+    use core::marker::PhantomData;
+    pub const MAXN: usize = 16;
+    pub const MAXC: usize = 8;
+    pub static mut KIND: [u8; MAXN] = [0; MAXN];
+    pub static mut NCH: [u8; MAXN] = [0; MAXN];
+    pub static mut CH: [[u8; MAXC]; MAXN] = [[0; MAXC]; MAXN];
+    pub static mut NNODES: usize = 0;
+    pub const NAMES: [&str; 8] = ["mi", "none", "mprescripts", "mmultiscripts", "mtext", "mrow", "mn", "mo"];
+    #[derive(Clone, Copy, PartialEq, Eq, Debug)] pub struct Element<'a> { pub id: u8, pub p: PhantomData<&'a ()> }
+    #[derive(Clone, Copy, PartialEq, Eq, Debug)] pub enum ChildOfElement<'a> { Element(Element<'a>) }
+    #[derive(Clone, Copy)] pub struct Document<'a>(pub PhantomData<&'a ()>);
+    /// fixed-capacity vector that derefs to a slice (what `children()` returns and `replace_children` takes)
+    pub struct KVec<T: Copy> { items: core::mem::MaybeUninit<[T; MAXC + 2]>, len: usize }
+    impl<T: Copy> KVec<T> {
+        pub fn new() -> Self { KVec { items: core::mem::MaybeUninit::uninit(), len: 0 } }
+        pub fn with_capacity(_n: usize) -> Self { Self::new() }
+        pub fn push(&mut self, t: T) { assert!(self.len < MAXC + 2, "model vector overflow"); unsafe { (self.items.as_mut_ptr() as *mut T).add(self.len).write(t); } self.len += 1; }
+    }
+    impl<T: Copy> core::ops::Deref for KVec<T> { type Target = [T]; fn deref(&self) -> &[T] { unsafe { core::slice::from_raw_parts(self.items.as_ptr() as *const T, self.len) } } }
+    pub fn new_node(kind: u8) -> Element<'static> { unsafe { let id = NNODES; assert!(id < MAXN, "model DOM full"); NNODES += 1; KIND[id] = kind; NCH[id] = 0; Element { id: id as u8, p: PhantomData } } }
+    impl<'a> Element<'a> {
+        pub fn children(&self) -> KVec<ChildOfElement<'a>> {
+            let mut v = KVec::new();
+            unsafe { let n = NCH[self.id as usize] as usize; let mut i = 0; while i < n { v.push(ChildOfElement::Element(Element { id: CH[self.id as usize][i], p: PhantomData })); i += 1; } }
+            v
+        }
+        pub fn replace_children(&self, new: KVec<ChildOfElement<'a>>) {
+            unsafe { assert!(new.len() <= MAXC, "model child list overflow"); NCH[self.id as usize] = new.len() as u8; let mut i = 0; while i < new.len() { let ChildOfElement::Element(e) = new[i]; CH[self.id as usize][i] = e.id; i += 1; } }
+        }
+        pub fn append_child_id(&self, c: u8) { unsafe { let n = NCH[self.id as usize] as usize; CH[self.id as usize][n] = c; NCH[self.id as usize] = (n + 1) as u8; } }
+        pub fn document(&self) -> Document<'a> { Document(PhantomData) }
+    }
+    pub fn name<'a>(e: &Element<'a>) -> &'static str { NAMES[unsafe { KIND[e.id as usize] } as usize] }
+    pub fn as_element<'a>(c: ChildOfElement<'a>) -> Element<'a> { let ChildOfElement::Element(e) = c; e }
+    pub fn create_mathml_element<'a>(_doc: &Document<'a>, nm: &str) -> Element<'a> {
+        let kind = if nm.len() == 5 { 4 } else if nm.len() == 4 { 5 } else { 0 };      // "mtext" / "mrow"
+        let e = new_node(kind); Element { id: e.id, p: PhantomData }
+    }
+}
+use dom::{Element, ChildOfElement, Document, name, as_element, create_mathml_element};
+#[allow(unused_imports)] use dom::KVec as Vec;
+'''
